@@ -11,6 +11,7 @@ ENGINES = {
     "C50": "e10_stream",
     "C48": "e1_cache",
     "C46": "e2_build",
+    "C42": "e2_determinism",
 }
 
 
